@@ -318,6 +318,18 @@ def check(ctx):
     first = min(vals, key=lambda nb: nb[0].lineno) if vals else None
     ok = len(ni) == 1 and first is not None and unparse(first[1]["M_v"]) == "ind.array" and dominates(ni[0], first[0], returns(ni[0])[0])
     ctx.ob("INJ.index-array", ni[0] if ni else mod.tree, "normalize_index reads ind.array", ok, "" if ok else "ind.values drops what the extension array carries (time zone, frequency): a naive and a tz-aware index over the same instants share a token")
+    # ---------------- pandas DataFrame: consolidated blocks + labels do not say which column sits where
+    nd = [f_ for f_, t_ in regs if f_.name == "normalize_dataframe"]
+    txt = unparse(nd[0]) if nd else ""
+    ok = len(nd) == 1 and "mgr.arrays" in txt and "df.columns" in txt and "df.index" in txt and "blknos" in txt and "blklocs" in txt
+    ctx.ob("INJ.dataframe-placement", nd[0] if nd else mod.tree, "normalize_dataframe hashes the blocks, the labels AND the block placement (blknos, blklocs)", ok, "" if ok else "two frames with equal blocks and labels but columns assigned to different block rows share a token")
+    # ---------------- ndarray subclasses: same bytes, different meaning
+    na = [f_ for f_, t_ in regs if f_.name == "normalize_array" and t_ == "np.ndarray"]
+    ok = len(na) == 1
+    if ok:
+        sub = [r for r in returns(na[0]) if any(eqv(e, "type(x) is np.ndarray") and pol is False for e, pol in cfg_of(na[0]).facts(r))]
+        ok = len(sub) == 1 and isinstance(sub[0].value, ast.Tuple) and any(eqv(e_, "type(x)") for e_ in sub[0].value.elts)
+    ctx.ob("INJ.array-subclass", na[0] if na else mod.tree, "normalize_array adds type(x) to the token when x is not a plain ndarray", ok, "" if ok else "np.matrix and other ndarray subclasses tokenize like the plain array with the same data although operators on them differ")
     # ---------------- INJ.dataclass: every field of a dataclass instance is part of its token
     dcf = mod.func("_normalize_dataclass")
     comps = [c for c in ast.walk(dcf) if isinstance(c, ast.ListComp) and "dataclasses.fields(obj)" in unparse(c.generators[0].iter)]
